@@ -58,7 +58,7 @@ type byteBuf struct {
 }
 
 type symBytes struct {
-	buf      *byteBuf
+	buf       *byteBuf
 	off, n, c *term // Int terms: offset into buf, length, capacity (from off)
 }
 
